@@ -43,12 +43,13 @@ LEAN_MODULES = ["PorepyVerif.C46.Props"]
 AUDIT = "PorepyVerif/C46/Audit.lean"
 DRIVER = "PorepyVerif/C46/Driver.lean"
 N = {"quick": 300, "thorough": 6000}
-RULE = ("histories of 1-14 (thorough: 1-30) add/get calls on SparseNdArray(dim 1-3, value_dim 1-3), drawn from eleven strata: "
+RULE = ("histories of 1-14 (thorough: 1-30) add/get calls on SparseNdArray(dim 1-3, value_dim 1-3), drawn from twelve strata: "
         "random (coordinates from a box of side 2-4 so that duplicates inside and across batches are frequent); gets before the first add; "
         "the same batch added repeatedly (additive and overwriting mixed); batches whose coordinates are all equal; "
         "negative and large coordinates (+-10^6 and neighbours); add with an empty coordinate list (early return) between other calls; "
         "many in-batch duplicates of NEW coordinates (first occurrence != last occurrence, for the returned index vector); "
-        "size 0/1 (a single call, single coordinates); the same coordinate set added in permuted orders; strictly increasing batches of new coordinates "
+        "zero sums (additive batches whose values for a coordinate are an explicit 0 or cancel exactly, +v/-v or u,v,-(u+v), in all or only some value components, "
+        "value_dim 1-3, read back directly afterwards; explicit zeros also occur with probability 6% in every other stratum); size 0/1 (a single call, single coordinates); the same coordinate set added in permuted orders; strictly increasing batches of new coordinates "
         "(what AdaptiveInterpolationTable._fill_values passes); AdaptiveInterpolationTable.assign_values(val, coord, indices) on a table with dyadic base point and "
         "resolution (entry point to add; checks the side array _pt), incl. empty, duplicated and already stored indices. "
         "Values are small dyadic rationals (binary64 exact). get([]) is never generated (outside the property: the real code raises "
@@ -74,12 +75,44 @@ ASSUMPTIONS = ["values are exact in binary64 (dyadic generator) so that the rati
                "value_dim >= 1 and every add passes a (value_dim x n) value array for n coordinates (hypotheses OpK.WF, 0 < k of the k-row theorems)"]
 
 STRATA = ["random", "random", "random", "get_first", "repeat_batch", "all_equal", "large", "empty_add", "dup_new",
-          "tiny", "permuted", "sorted_fresh", "table", "table"]
+          "tiny", "permuted", "sorted_fresh", "table", "table", "zero_sum", "zero_sum"]
 BIG = 10 ** 6
 
 
 def _val(rng):
+    if rng.random() < 0.06:  # explicit zeros everywhere (a dictionary stores a zero like any value)
+        return "0"
     return frac(Fraction(rng.randint(-64, 64), rng.choice([1, 2, 4, 8])))
+
+
+def _zero_sum_add(rng, coords, vdim, additive=True):
+    """A batch in which the values given for a coordinate sum to exactly zero: an explicit 0, duplicates
+    that cancel (+v, -v; or u, v, -(u+v)), in all value components or only in some of them."""
+    cs, cols = [], []
+    for c in coords:
+        mode = rng.choice(["zero", "zero", "cancel2", "cancel2", "cancel3", "partial", "plain"])
+        nz = lambda: Fraction(rng.choice([-1, 1]) * rng.randint(1, 64), rng.choice([1, 2, 4, 8]))
+        if mode == "zero":
+            vs = [[Fraction(0)] * vdim]
+        elif mode == "cancel2":
+            v = [nz() for _ in range(vdim)]
+            vs = [v, [-x for x in v]]
+        elif mode == "cancel3":
+            u, v = [nz() for _ in range(vdim)], [nz() for _ in range(vdim)]
+            vs = [u, v, [-(x + y) for x, y in zip(u, v)]]
+        elif mode == "partial":  # zero (or cancelling) in some components only
+            v = [nz() if rng.random() < 0.5 else Fraction(0) for _ in range(vdim)]
+            w = [(-x if rng.random() < 0.5 else nz()) for x in v]
+            vs = [v, w] if rng.random() < 0.5 else [v]
+        else:
+            vs = [[nz() for _ in range(vdim)]]
+        for v in vs:
+            cs.append(list(c))
+            cols.append(v)
+    perm = list(range(len(cs)))
+    rng.shuffle(perm)
+    cs, cols = [cs[i] for i in perm], [cols[i] for i in perm]
+    return {"op": "add", "coords": cs, "values": [[frac(col[r]) for col in cols] for r in range(vdim)], "additive": additive}
 
 
 def _add(rng, coords, vdim, additive=None):
@@ -174,7 +207,16 @@ def gen_case(rng, tier):
             ops.append(_get(rng, seen, wide))
     while len(ops) < nops:
         u = rng.random()
-        if stratum == "tiny":
+        if stratum == "zero_sum" and u < 0.7:
+            # additive (sometimes overwriting) batch whose contributions to a coordinate sum to exactly 0,
+            # read back directly afterwards: a dictionary holds the key with value 0
+            cs = [coord() for _ in range(rng.randint(1, 4))]
+            cs = [list(t) for t in dict.fromkeys(map(tuple, cs))]
+            op = _zero_sum_add(rng, cs, vdim, additive=rng.random() < 0.85)
+            ops.append(op)
+            seen.update(map(tuple, cs))
+            ops.append({"op": "get", "coords": [list(c) for c in rng.sample(cs, rng.randint(1, len(cs)))]})
+        elif stratum == "tiny":
             if u < 0.6:
                 push_add([coord()])
             else:
@@ -439,6 +481,22 @@ def shrink_candidates(case):
                 yield dict(case, ops=ops[:i] + [op2] + ops[i + 1:])
 
 
+def _zero_sum_new(cases):
+    """number of (additive add, coordinate) pairs where the coordinate is new and all its value components sum to 0"""
+    n = 0
+    for c in cases:
+        seen = set()
+        for o in c["ops"]:
+            if o["op"] in ("add", "assign"):
+                cs = list(map(tuple, o["coords"]))
+                if o.get("additive") and o["op"] == "add":
+                    for t in set(cs) - seen:
+                        if all(sum(Fraction(row[i]) for i, x in enumerate(cs) if x == t) == 0 for row in o["values"]):
+                            n += 1
+                seen.update(cs)
+    return n
+
+
 def stats(cases, impl_outs):
     adds = [o for c in cases for o in c["ops"] if o["op"] in ("add", "assign")]
     n_get = sum(1 for c in cases for o in c["ops"] if o["op"] == "get")
@@ -450,6 +508,7 @@ def stats(cases, impl_outs):
 
     return {"adds": len(adds), "gets": n_get, "get_errors": n_err, "additive_adds": sum(1 for o in adds if o.get("additive")),
             "empty_adds": sum(1 for o in adds if not o["coords"]),
+            "additive_new_coordinates_with_zero_sum": _zero_sum_new(cases),
             "assign_values_calls": sum(1 for o in adds if o["op"] == "assign"),
             "single_op_cases": sum(1 for c in cases if len(c["ops"]) == 1),
             "single_coordinate_adds": sum(1 for o in adds if len(o["coords"]) == 1),
